@@ -28,12 +28,17 @@ frame (server lane: a call split across chunks with another connection's deliver
 distinct by hash of (target, frames, cuts, pend, cancel) or of the scenario.";
 
 fn case_strategy() -> impl Strategy<Value = RxCase> {
+    case_strategy_sized(5, 4)
+}
+
+/// `max_steps`: how many 256-byte growth steps a frame may span (350 = frames up to ~90 KiB).
+fn case_strategy_sized(max_frames: usize, max_steps: usize) -> impl Strategy<Value = RxCase> {
     (0usize..ALL_TARGETS.len())
         .prop_flat_map(move |ti| {
             let target = ALL_TARGETS[ti];
             (
                 Just(target),
-                frames_strategy(domain_of(target), 5, 4),
+                frames_strategy(domain_of(target), max_frames, max_steps),
                 chunk_plan_strategy(),
                 prop::collection::vec(0u8..4, 1..5),
                 prop::collection::vec(any::<u16>(), 0..10),
@@ -42,7 +47,11 @@ fn case_strategy() -> impl Strategy<Value = RxCase> {
         })
         .prop_map(|(target, frames, plan, pend, cancel_raw, every_k)| {
             let stream = stream_of(&frames);
-            let cuts = resolve_cuts(&plan, &stream);
+            let mut cuts = resolve_cuts(&plan, &stream);
+            if stream.len() > 8 * 1024 && cuts.len() > 2048 {
+                // byte-at-a-time over a long stream adds nothing the short lanes do not cover
+                cuts = resolve_cuts(&vcommon::frames::ChunkPlan::Fixed(1 + cuts.len() % 2053), &stream);
+            }
             let chunks = split_at_cuts(&stream, &cuts).len();
             let total_pending: usize = (0..chunks).map(|i| pend[i % pend.len()] as usize).sum();
             let mut cancel: Vec<usize> = match every_k {
@@ -366,6 +375,19 @@ pub fn run(ctx: &Ctx) -> i32 {
     });
     stats.merge(s3);
     viol.extend(v3);
+
+    // Long frames (4..90 KiB, hundreds of growth steps) abandoned while thousands of their bytes are
+    // already buffered: whatever the connection does with a large or idle-looking buffer between two
+    // receives, a partly received frame must survive it.
+    let (s7, v7) = run_shards(ctx, "large-frames", shards, cases / 20, || case_strategy_sized(4, 350), |c, stats| {
+        stats.class("lane:large-frames");
+        if stream_of(&c.frames).len() > 16 * 1024 {
+            stats.class("large-frames:stream>16KiB");
+        }
+        check_case(c, stats)
+    });
+    stats.merge(s7);
+    viol.extend(v7);
 
     let (s6, v6) = run_shards(ctx, "mixed-forms", shards, cases / 2, mix_strategy, |c, stats| {
         stats.sample(|| json!({"lane": "mixed-forms", "stream": truncate(&show_bytes(&stream_of(&c.frames)), 160), "cuts": c.cuts, "pend": c.pend, "steps": c.steps}));
